@@ -12,6 +12,8 @@ import ParryModel.C16.Theorems8
 import ParryModel.C16.Theorems9
 import ParryModel.C16.Theorems10
 import ParryModel.C16.Theorems11
+import ParryModel.C16.Theorems12
+import ParryModel.C16.Theorems13
 /-!
 # C16 property theorems: ear clipping and Hertel–Mehlhorn, for every linearly ordered field.
 
@@ -223,5 +225,20 @@ theorem hertel_mehlhorn_pts_spec (pts : Array (V2 K)) (tris : Array (Nat × Nat 
   obtain ⟨t, ht, hxt⟩ := (hertel_mehlhorn_sound sq pts tris).2.2 p hp x hx
   obtain ⟨a, b, c⟩ := hidx t ht
   rcases hxt with rfl | rfl | rfl <;> assumption
+
+/-- **C16, end to end: the only `None` of the pipeline is the triangulation's** (corrected function) — every polygon whose
+vertices are pairwise farther apart than `ε`.  Whenever ear clipping answers `Some(out)`, `decompose_trimesh` on that mesh
+answers `Some(compound)`: thin pieces and tiny-but-representable edges never make the decomposition fail. -/
+theorem polygon_decompose_isSome (pts : Array (V2 K)) (out : Array (Nat × Nat × Nat))
+    (hsep : letI := fieldNum K sq
+      ∀ i j, i < pts.size → j < pts.size → i ≠ j →
+        (C10.eps : K) * C10.eps < ((pt pts j).x - (pt pts i).x) * ((pt pts j).x - (pt pts i).x)
+          + ((pt pts j).y - (pt pts i).y) * ((pt pts j).y - (pt pts i).y)) :
+    letI := fieldNum K sq
+    triangulateEarClipping pts = some out → (decomposeTrimesh pts out).isSome := by
+  letI := fieldNum K sq
+  intro h
+  obtain ⟨_, hidx, _, _⟩ := ear_clipping_sound sq pts out h
+  exact decompose_trimesh_isSome_of_separated sq pts out hidx hsep
 
 end C16
